@@ -207,6 +207,7 @@ class VCtx(object):
         self.debug = False
         import os
         self.tagcheck = bool(os.environ.get("VERIF_TAGCHECK"))
+        self.max_partition = int(os.environ.get("VERIF_MAX_PARTITION", "768"))
         self.combo_count = 0
 
     # -- conditions ---------------------------------------------------------------------------
@@ -376,7 +377,8 @@ class VCtx(object):
             bad = m.validate_tags()
             if bad:
                 raise AssertionError("inconsistent partition tags: %r" % (bad[:3],))
-        if partition and len(res) > 2:
+        if partition and 2 < len(res) <= self.max_partition:
+            # (block sets of very wide unions cost more memory than they save solver work)
             m.new_partition([g for g, _ in res], total=total)
         elif partition and len(res) == 2 and not (res[0][0].tags and res[1][0].tags):
             m.new_partition([g for g, _ in res], total=total)
